@@ -655,6 +655,8 @@ fn cram_roundtrip(tier: &str) -> Result<String, String> {
     for i in 0..600 { push(&mut big, &format!("unm.{i}"), 4, "*", 0, 0, "*", "*", 0, 0, "ACGTACGTAC", ""); }
     let parse = |lines: &Vec<String>| -> Result<Vec<sam::alignment::RecordBuf>, String> { let text: String = lines.concat(); let mut rd = sam::io::Reader::new(text.as_bytes()); rd.record_bufs(&header).collect::<Result<Vec<_>, _>>().map_err(|e| format!("sam: {e}")) };
     let small_recs = parse(&small)?; let big_recs = parse(&big)?;
+    // only records WITHOUT bases (SEQ *): the series that hold bases and quality scores stay empty
+    let nobase_recs = parse(&vec!["nb.1\t4\t*\t0\t0\t*\t*\t0\t0\t*\t*\n".to_string(), "nb.2\t4\t*\t0\t0\t*\t*\t0\t0\t*\t*\tXA:i:1\n".to_string(), "nb.3\t77\t*\t0\t0\t*\t*\t0\t0\t*\t*\n".to_string()])?;
     let mut fails: BTreeMap<String, String> = BTreeMap::new();
     // ---- comparison of a record read back with the one written ----
     let diff = |a: &sam::alignment::RecordBuf, b: &sam::alignment::RecordBuf| -> Vec<&'static str> {
@@ -703,7 +705,7 @@ fn cram_roundtrip(tier: &str) -> Result<String, String> {
     // what goes wrong -> (configurations under which it does, record set)
     let mut by_kind: BTreeMap<String, (Vec<String>, String)> = BTreeMap::new();
     for (cname, deltas, map) in configs {
-        for (sname, recs) in [("small multi-reference set", &small_recs), ("21080-record set", &big_recs)] {
+        for (sname, recs) in [("small multi-reference set", &small_recs), ("21080-record set", &big_recs), ("set of records without bases", &nobase_recs)] {
             if sname.starts_with("21080") && tier != "thorough" && !(cname == "default" || cname.contains("tokenizer") || cname.contains("AAC o0") || cname.contains("Nx16 o0") || cname.contains("fqzcomp")) { continue; }
             cases += 1;
             let mut diffs: Vec<String> = Vec::new();
